@@ -129,6 +129,24 @@ def st_case(draw, max_len=25):
     subs = []
     for k in range(nsub):
         body = draw(st.lists(st_body_instr(), min_size=1 if k else 3, max_size=max_len))
+        if k == 0 and unit >= 2 and draw(st.integers(0, 2)) == 0:
+            # allocation churn at the start (nothing is allocated yet): a fault-free sequence of allocations and frees that leaves
+            # holes in the set of physical qubits before the rest of the program allocates again
+            churn = []
+            held: List[int] = []
+            for _ in range(draw(st.integers(4, 9))):
+                free_ids = [i for i in range(unit) if i not in held]
+                if held and (not free_ids or draw(st.integers(0, 2)) == 0):
+                    v = held.pop(draw(st.integers(0, len(held) - 1)))
+                    churn += [["set", ["Q14", v]], ["qfree", ["Q14"]]]
+                else:
+                    v = draw(st.sampled_from(free_ids))
+                    held.append(v)
+                    churn += [["set", ["Q14", v]], ["qalloc", ["Q14"]]]
+            if draw(st.booleans()):
+                for v in held:
+                    churn += [["set", ["Q14", v]], ["qfree", ["Q14"]]]
+            body = churn + body
         if again and k == again_at - 1:
             body = body + [["store", [draw(st_src), {"addr": again_addr, "idx": draw(st.sampled_from(IDX_CONST))}]], ["ret_arr", [{"addr": again_addr}]]]
         if again and k == again_at:
